@@ -205,6 +205,8 @@ var sigCatalogue = []string{
 	"[i]", "[s]", "[m]", "[b]", "[W]", "[v]", "()", "(i)", "(s)", "(m)", "(ss)", "(sb)", "(iI)",
 	"{sI}", "{sm}", "{Is}", "{ii}", "[[i]]", "[(s)]", "[()]", "([i])", "([m])", "{s[m]}", "[{sI}]",
 	"()<P>", "(s)<P,a>", "(sb)<P,a,b>", "(i)<P,a>", "(m)<P,a>",
+	// grammatical but inconsistent annotations (more / fewer names than members)
+	"()<P,a>", "(i)<P,a,b>", "(ii)<P,a>", "[(i)<P,a,b>]", "(i)<P>",
 }
 
 func init() {
